@@ -133,4 +133,81 @@ example : ∃ t ∈ Ex.l, ∃ d ∈ Ex.l, keyOf d = keyOf t ∧ t.decoy = false 
 
 end
 
+/-! ## no digest at all: the empty database (guard in `group_digests`) -/
+
+section nodigest
+
+/-- **C08.groupDigests_nil** — an empty digest list gives no groups (the guarded `group_digests`; it used to
+index `digests[0]` and panic). -/
+theorem groupDigests_nil : groupDigests [] = some [] := by
+  simp [groupDigests, sortDigests]
+
+variable {α : Type} [Add α] [OfNat α 0] [BEq α] [LE α] [DecidableLE α] [LT α] [DecidableLT α]
+
+theorem reorder_nil : reorder ([] : List (DbPep α)) = [] := by
+  simp [reorder, dedupBy]
+
+/-- **C08.buildDb_no_digest** — a FASTA none of whose proteins yields a peptide (all below `min_len`, only tagged
+records while decoys are generated, no record at all) builds the EMPTY database — it does not fail. -/
+theorem buildDb_no_digest (cfg : Cfg α) (t : List (C05.Seq × C05.Seq))
+    (h : fastaDigest cfg.par cfg.tag cfg.gen t = []) : buildDb cfg t = some [] := by
+  unfold buildDb buildWith
+  rw [h, groupDigests_nil]
+  simp [digestPeptides, reorder_nil]
+
+/-- **C08.buildDb_total** — `Parameters::digest` never fails in the model: every FASTA has a database. -/
+theorem buildDb_total (cfg : Cfg α) (t : List (C05.Seq × C05.Seq)) : (buildDb cfg t).isSome = true := by
+  unfold buildDb buildWith groupDigests
+  cases sortDigests (fastaDigest cfg.par cfg.tag cfg.gen t) <;> simp
+
+/-- non-vacuity: one protein `AAK` with `min_len = 5` has no digest; the database is empty -/
+example : buildDb ({ Ex.cfg with par := { Ex.par with minLen := 5 } } : Cfg Nat) [([80, 49], [65, 65, 75])] = some [] :=
+  buildDb_no_digest _ _ (by decide +kernel)
+
+end nodigest
+
+section concat
+variable {α : Type}
+
+theorem prefilterConcat_nodrop_aux (seed : Nat) (dbs : List (List (DbPep α))) : ∀ n,
+    ((dbs.zipIdx n).flatMap fun dc =>
+      (dc.1.zipIdx).filterMap fun pi => if false && !keepEntry seed dc.2 pi.2 then none else some pi.1) = dbs.flatten := by
+  induction dbs with
+  | nil => intro n; simp
+  | cons d rest ih =>
+    intro n
+    simp only [List.zipIdx_cons, List.flatMap_cons, List.flatten_cons, ih]
+    congr 1
+    simp only [Bool.false_and, Bool.false_eq_true, if_false]
+    have : ∀ (l : List (DbPep α)) (m : Nat), (l.zipIdx m).filterMap (fun pi => some pi.1) = l := by
+      intro l
+      induction l with
+      | nil => intro m; simp
+      | cons x xs ih2 => intro m; simp [List.zipIdx_cons, ih2]
+    exact this d 0
+
+/-- without the subset rule the concatenation is just the concatenation of the chunk databases -/
+theorem prefilterConcat_nodrop (seed : Nat) (dbs : List (List (DbPep α))) :
+    prefilterConcat seed false dbs = dbs.flatten := by
+  unfold prefilterConcat
+  exact prefilterConcat_nodrop_aux seed dbs 0
+
+end concat
+
+section emptychunk
+variable {α : Type} [LinearOrder α]
+
+/-- **C08.empty_chunk_irrelevant** — in the chunked prefilter build a chunk without any peptide (its database is
+empty) contributes nothing: the result is the build of the other chunks. -/
+theorem empty_chunk_irrelevant (seed : Nat) (a b : List (List (DbPep α))) :
+    reorder (prefilterConcat seed false (a ++ [] :: b)) = reorder (prefilterConcat seed false (a ++ b)) := by
+  rw [prefilterConcat_nodrop, prefilterConcat_nodrop]
+  simp
+
+/-- non-vacuity: `Ex.l` as one chunk, an empty chunk before and after it -/
+example : reorder (prefilterConcat 3 false ([[]] ++ [] :: [Ex.l])) = reorder Ex.l := by
+  rw [empty_chunk_irrelevant, prefilterConcat_nodrop]; simp
+
+end emptychunk
+
 end Sage.C08
